@@ -14,3 +14,4 @@ import RaftWal.Props.C10
 #print axioms RaftWal.C10.chain_atomic_faults_partial
 #print axioms RaftWal.C10.repaired_witnesses
 #print axioms RaftWal.C10.chain_atomic_repaired_sync
+#print axioms RaftWal.C10.writer_clears_stale_tail_before_write
